@@ -61,9 +61,9 @@ def _keyrepr(B, k):
     return tuple(np.asarray(k).reshape(-1).tolist())
 
 
-def scenario(B, case):
-    import jax
-
+def _program(B, case):
+    """builds the world, makes the earlier random activity, re-seeds and runs the program; returns (Config, seed, index of
+    the first draw of the program in the sampler log)"""
     from symx.world import World
 
     W = World(B, case["world"])
@@ -100,6 +100,13 @@ def scenario(B, case):
     elif what == "sequence2":
         W.envs["e0"].measure()
         W.envs["e1"].measure()
+    return C, seed, n_before
+
+
+def scenario(B, case):
+    import jax
+
+    C, seed, n_before = _program(B, case)
     draws = B.get_draws()[n_before:]
     # expected key sequence: exactly the successive Config.random_key values after the re-seed
     k = jax.random.PRNGKey(seed)
@@ -117,6 +124,35 @@ def scenario(B, case):
     B.require_structural(all(str(g) != str(retained) for g in got), "C14: a draw used the key that Config retains")
     if B.mode == "sym" and len(got) >= 2:
         _adt_distinct(B, got + [retained])
+    vector_only = not any(b.get("level") == "M" for b in case["world"]["blocks"])
+    if len(draws) >= 2 and case["what"] in ("measure", "sequence") and vector_only:
+        # (bound: projective measurements on worlds without matrix-level blocks - the twin doubles the work of a path)
+        # twin run: the same program on a fresh world with the same contents, the same seed and the same outcome for the same
+        # key must make the same random decisions in the same order - the probability vector handed to the i-th draw is the
+        # same (nothing but the seed and the program decides which measurement gets which key)
+        B.begin_twin({str(d["key"]): d["k"] for d in draws})
+        try:
+            _, _, n2 = _program(B, case)
+        finally:
+            B.end_twin()
+        draws2 = B.get_draws()[n2:]
+        B.require_structural(len(draws2) == len(draws), f"C14: twin run made {len(draws2)} draws, the first run {len(draws)}")
+        for i, (d1, d2) in enumerate(zip(draws, draws2)):
+            same_key = str(_keyrepr(B, d1["key"])) == str(_keyrepr(B, d2["key"]))
+            B.require_structural(same_key and len(d1["p"] or []) == len(d2["p"] or []),
+                                 f"C14: draw {i} of the twin run uses another key or another number of outcomes")
+            if same_key and d1["p"] is not None and d2["p"] is not None and len(d1["p"]) == len(d2["p"]):
+                B.require_zero([_sc(B, a) - _sc(B, b) for a, b in zip(d1["p"], d2["p"])],
+                               f"C14: draw {i} gets a different probability vector in a twin run of the same seeded program "
+                               f"(which measurement receives which key is not decided by the seed alone)", "twin-run")
+
+
+def _sc(B, x):
+    if B.mode == "real":
+        return complex(x)
+    from symx import core
+
+    return core.SC.lift(x)
 
 
 def _adt_distinct(B, terms):
